@@ -59,9 +59,11 @@ for _k in _TUPLES | {"intkeys", "nul"}:
     OUTSIDE[_k] |= {"xml"}
 # the one normalisation a format applies on the way back: JSON and BSON have no tuple, a tuple loads as a list
 TUPLE_AS_LIST = {"json", "bson"}
-# (format, kind) where the unchanged library saves successfully but loads back a DIFFERENT value: reported, not yet
-# assigned a finding id, kept out of the generated domain until then (see reg_C19 "assumptions")
-PENDING = {("json", "intkeys"), ("bson", "intkeys")}
+# (format, kind) outside the format's representable domain although dumps accepts it: maps with non-string keys
+# under JSON/BSON come back with string keys (XML refuses them, except a None key, which it drops).  C02/C04 speak
+# of string-keyed maps; ruled "observed, not counted" (reg_C19): kept out of the generated domain.  YAML and
+# pickle round-trip int keys and keep them.
+NOT_REPRESENTABLE = {("json", "intkeys"), ("bson", "intkeys")}
 UNTYPED = ("any", "ulist", "udict")
 SECRET_LENGTHS = [0, 1, 15, 16, 17, 31, 32, 33, 48]
 
@@ -881,10 +883,10 @@ def matrix(formats):
 
 
 def _avoid_pending(fields, fmt):
-    """replace untyped values in a PENDING (format, kind) combination by a harmless kind"""
+    """replace untyped values in a NOT_REPRESENTABLE (format, kind) combination by a representable kind"""
     out = []
     for f in fields:
-        if f[0] in UNTYPED and (fmt, f[2]) in PENDING:
+        if f[0] in UNTYPED and (fmt, f[2]) in NOT_REPRESENTABLE:
             out.append((f[0], f[1], "nested"))
         elif f[0] == "sub":
             out.append(f[:3] + (_avoid_pending(f[3], fmt),))
@@ -901,7 +903,7 @@ def roundtrip_matrix(formats):
     cases = []
     for fmt in formats:
         for kind in sorted(ANY_VALUES):
-            if (fmt, kind) in PENDING:
+            if (fmt, kind) in NOT_REPRESENTABLE:
                 continue
             for container in UNTYPED:
                 fields = [("plain", "a", "int", None), (container, "u", kind), ("plain", "z", "str", None)]
